@@ -117,14 +117,15 @@ def _mc(ctx):
     for label, cfg in runs:
         r = ctx.tlc_mc("LifecycleImpl", cfg, label="impl (kind change = delete+create) refines contract: " + label, timeout=1500)
         ctx.log("impl layer refines the contract (%s): %d distinct states" % (label, r.distinct))
-    # the pinned diff (kind change classified as update) does not: this is a lead, not a verdict
+    # the diff as originally pinned (kind change classified as update, finding F18) does not: TLC must find that
+    # (a lead for the real code, never a verdict; here it also shows that the refinement check is not vacuous)
     r = ctx.tlc_mc("LifecycleImpl", impl_cfg(["a", "b"], ["K1", "K2"], [], [], [1, 2], 2, ["sup"], 0, pinned=True),
-                   label="impl as pinned (kind change = update)", expect_ok=False, count=False, timeout=600)
+                   label="impl with kind change = update (F18 shape)", expect_ok=False, count=False, timeout=600)
     if r.violated:
-        ctx.notes.append("TLC lead: applyConfig's kind-change-as-update shape violates %s of the contract" % r.violated)
-        ctx.log("lead: the pinned shape of applyConfig violates %s (kind change handled as update)" % r.violated)
-    elif not r.ok:
-        ctx.inconclusive("TLC failed on the pinned-shape model:\n" + r.out[-2000:])
+        ctx.notes.append("TLC: the kind-change-as-update shape of applyConfig (F18) violates %s of the contract" % r.violated)
+        ctx.log("model sanity: the kind-change-as-update shape of applyConfig violates %s" % r.violated)
+    else:
+        ctx.inconclusive("TLC does not reject the kind-change-as-update shape of applyConfig: refinement check is vacuous\n" + r.out[-2000:])
     if not q:
         r = ctx.tlc_mc("LifecycleImpl", impl_cfg(["a", "b"], ["K1", "K2"], [], [], [1, 2], 2, ["sup"], 1, recover=False),
                        label="impl without recover()", expect_ok=False, count=False, timeout=600)
